@@ -1,6 +1,6 @@
 """Configuration of the check for C14 (loaded by checklib/props.py; COMMON_TRUSTED / MODEL_TRUSTED are in scope)."""
 
-PROP = {'modules': ['AmVerif.Props.C14'],
+PROP = {'modules': ['AmVerif.Props.C14', 'AmVerif.Lemmas.Order'],
  'engines': [{'name': 'hr', 'quick': 160, 'thorough': 4000, 'shrink': False,
               'classes': ['wrong-attribution', 'sync-timeout']}],
  'rule': 'hr engine (see C05); the attribution family (every 8th case) builds an asset `a` with one look-up of each kind (+ load, = load ignoring errors, ? get_cached, ! load_owned, ~ load inside no_record, & load on a helper thread, ^ catch_unwind(no_record(load)), r raw read) on distinct leaves, then edits and notifies EVERY file of the tree one at a time and observes which reload ids moved; the oracle computes from the token kinds whether `a` must reload; the other families (nested DAGs to depth 6, N0 = not-reloaded types, directories) are compared entry by entry with the model, which records per frame',
